@@ -34,18 +34,16 @@ func analyseHandle6(c *Ctx) *h6 {
 		return nil
 	}
 	h := &h6{fn: fn}
-	for _, b := range fn.Blocks {
-		for _, in := range b.Instrs {
-			if call, ok := in.(*ssa.Call); ok {
-				if f := call.Call.StaticCallee(); f != nil && f.String() == pkgDHCP6+".FromBytes" {
-					h.fromB = call
-				}
-				if call.Call.IsInvoke() && call.Call.Method.Name() == "GetInnerMessage" && h.inner == nil {
-					h.inner = call
-				}
+	eachInstr(fn, func(in ssa.Instruction) {
+		if call, ok := in.(*ssa.Call); ok {
+			if f := call.Call.StaticCallee(); f != nil && f.String() == pkgDHCP6+".FromBytes" {
+				h.fromB = call
+			}
+			if call.Call.IsInvoke() && call.Call.Method.Name() == "GetInnerMessage" && h.inner == nil {
+				h.inner = call
 			}
 		}
-	}
+	})
 	if h.fromB == nil || h.inner == nil {
 		c.R.Fatalf("ANCHOR-UNRESOLVED: HandleMsg6 does not call dhcpv6.FromBytes / GetInnerMessage")
 		return nil
@@ -56,7 +54,7 @@ func analyseHandle6(c *Ctx) *h6 {
 			return true
 		}
 		if call, ok := in.(*ssa.Call); ok {
-			if f := call.Call.StaticCallee(); f != nil && v6Ctors[f.String()] {
+			if f := call.Call.StaticCallee(); f != nil && (v6Ctors[f.String()] || f.String() == pkgDHCP6+".NewRelayReplFromRelayForw") {
 				return true
 			}
 		}
@@ -106,6 +104,9 @@ func ruleV6(c *Ctx, prefix string) {
 	for _, in := range sortedInstrs(h.ss.Sites) {
 		call, ok := in.(*ssa.Call)
 		if !ok || isSendSite(in) != "" {
+			continue
+		}
+		if f := call.Call.StaticCallee(); f == nil || !v6Ctors[f.String()] {
 			continue
 		}
 		nctor++
@@ -166,6 +167,38 @@ func ruleV6(c *Ctx, prefix string) {
 		}
 	}
 
+	// ---- RELAY: how the Relay-Reply is built (checked where it is built, in whichever function that is)
+	var relayBuildBad string
+	var relayBuildSt *State
+	for _, in := range sortedInstrs(h.ss.Sites) {
+		rc, ok := in.(*ssa.Call)
+		if !ok {
+			continue
+		}
+		if f := rc.Call.StaticCallee(); f == nil || f.String() != pkgDHCP6+".NewRelayReplFromRelayForw" {
+			continue
+		}
+		for _, st := range h.ss.Sites[in] {
+			a0 := ex.Canon(st, rc.Call.Args[0]).S
+			if !regexp.MustCompile(`^`+reQ(pkgDHCP6)+`\.FromBytes@(?:[\w$]+·)?t\d+\([^)]*\)#0\.\(\*`+reQ(pkgDHCP6)+`\.RelayMessage\)$`).MatchString(a0) && relayBuildBad == "" {
+				relayBuildBad, relayBuildSt = "relay reply is not built from the received Relay-Forward: "+shortName(a0), st
+			}
+			// second argument: the chain result asserted to *Message
+			okA1 := false
+			a1 := rc.Call.Args[1]
+			if ph, ok := a1.(*ssa.Phi); ok {
+				a1 = ex.Resolve(st, ph)
+			}
+			if e1, ok := a1.(*ssa.Extract); ok {
+				if ta, ok := e1.Tuple.(*ssa.TypeAssert); ok && h.di != nil && h.di.ExitPhi != nil {
+					okA1, _ = staticOrigins(c, h.fn, ta.X, func(v ssa.Value) bool { return v == ssa.Value(h.di.ExitPhi) })
+				}
+			}
+			if !okA1 && relayBuildBad == "" {
+				relayBuildBad, relayBuildSt = "relay reply does not enclose the chain's response", st
+			}
+		}
+	}
 	// ---- FILTER / RELAY / DEST / PIN at the send
 	nsend := 0
 	for _, in := range sortedInstrs(h.ss.Sites) {
@@ -200,26 +233,14 @@ func ruleV6(c *Ctx, prefix string) {
 			}
 			// RELAY
 			isRelay, _ := histFact(st, "bool", regexp.MustCompile(`^invoke:`+reQ(pkgDHCP6)+`\.DHCPv6\.IsRelay\(`+reQ(pkgDHCP6)+`\.FromBytes@(?:[\w$]+·)?t\d+\([^)]*\)#0\)$`))
-			r := ex.Resolve(st, sv)
+			r := ex.ResolveDeep(st, sv)
 			isReenc := false
 			if e, ok := r.(*ssa.Extract); ok && e.Index == 0 {
 				if rc, ok := e.Tuple.(*ssa.Call); ok {
 					if f := rc.Call.StaticCallee(); f != nil && f.String() == pkgDHCP6+".NewRelayReplFromRelayForw" {
 						isReenc = true
-						a0 := ex.Canon(st, rc.Call.Args[0]).S
-						if !regexp.MustCompile(`^` + reQ(pkgDHCP6) + `\.FromBytes@(?:[\w$]+·)?t\d+\([^)]*\)#0\.\(\*` + reQ(pkgDHCP6) + `\.RelayMessage\)$`).MatchString(a0) {
-							setBad("V6.RELAY", "relay reply is not built from the received Relay-Forward: "+shortName(a0), st)
-						}
-						// second argument: the chain result asserted to *Message
-						a1 := ex.Resolve(st, rc.Call.Args[1])
-						okA1 := false
-						if e1, ok := a1.(*ssa.Extract); ok {
-							if ta, ok := e1.Tuple.(*ssa.TypeAssert); ok && h.di != nil && h.di.ExitPhi != nil {
-								okA1, _ = originsWithin(ta.X, func(v ssa.Value) bool { return v == ssa.Value(h.di.ExitPhi) })
-							}
-						}
-						if !okA1 {
-							setBad("V6.RELAY", "relay reply does not enclose the chain's response", st)
+						if relayBuildBad != "" {
+							setBad("V6.RELAY", relayBuildBad, relayBuildSt)
 						}
 					}
 				}
@@ -249,12 +270,12 @@ func ruleV6(c *Ctx, prefix string) {
 			Onn, _ := histFact(st, "nil", regexp.MustCompile(`^\$2$`))
 			Oidx, _ := histEq(st, regexp.MustCompile(`^\$2\.IfIndex$`), "0")
 			O := and3(not3(Onn), not3(Oidx))
-			wv := ex.Resolve(st, call.Call.Args[len(call.Call.Args)-2])
+			wv := ex.ResolveDeep(st, call.Call.Args[len(call.Call.Args)-2])
 			gotW := "unknown"
 			if isNilConst(wv) {
 				gotW = "nil"
 			} else if al, ok := wv.(*ssa.Alloc); ok {
-				if s, ok := st.ReadLocal("new@" + anm(al) + ".IfIndex"); ok {
+				if s, ok := st.ReadLocal("new@" + ex.vname(al) + ".IfIndex"); ok {
 					gotW = s
 				}
 			}
@@ -318,6 +339,9 @@ func ruleV6(c *Ctx, prefix string) {
 				nn = 1
 			} else if ns == 1 {
 				nn = 0
+			}
+			if nn == -1 {
+				nn = chainResultNonNil(c, h.fn, h.di, e.St)
 			}
 		}
 		if and3(p, ie, ty, ck, nn) == 0 {
